@@ -63,6 +63,10 @@ func c04Jobs(tier string, seed int64) []string {
 			}
 		}
 	}
+	for _, cfg := range cfgs {
+		add("suffix:" + cfg + ":3:a+1")
+		add("suffix:" + cfg + ":2:f(a")
+	}
 	// deep nesting (concrete): brackets, parentheses, closures, unterminated literals
 	for _, s := range []string{
 		strings.Repeat("(", 40) + "1" + strings.Repeat(")", 40), strings.Repeat("[", 40) + strings.Repeat("]", 40),
@@ -133,6 +137,21 @@ func c04Run(job string) {
 	case "trunc":
 		n := sym.Choice("len", len(rest))
 		src = rest[:n]
+	case "suffix":
+		// program followed by k symbolic bytes over a small alphabet of token starts
+		ks, prog, _ := strings.Cut(rest, ":")
+		k, _ := strconv.Atoi(ks)
+		bs := []byte(prog)
+		for i := 0; i < k; i++ {
+			b := sym.Byte("s" + strconv.Itoa(i))
+			in := false
+			for _, c := range []byte(" )]2a,\"+}") {
+				in = sym.Or(in, b == c)
+			}
+			sym.Assume(in)
+			bs = append(bs, b)
+		}
+		src = string(bs)
 	case "tmpl":
 		ks, prog, _ := strings.Cut(rest, ":")
 		k, _ := strconv.Atoi(ks)
